@@ -125,6 +125,23 @@ func (f *failNth) RoundTrip(req *http.Request) (*http.Response, error) {
 	return f.inner.RoundTrip(req)
 }
 
+// someLinks removes the Link header from some answers (every answer whose number in the conversation has
+// the bit pattern set): the header is optional on every response, and replicas or intermediaries differ
+// in whether they send it. The listing is the same listing.
+type someLinks struct {
+	inner   http.RoundTripper
+	n       atomic.Int64
+	pattern uint64
+}
+
+func (t *someLinks) RoundTrip(req *http.Request) (*http.Response, error) {
+	resp, err := t.inner.RoundTrip(req)
+	if err == nil && t.pattern>>(uint(t.n.Add(1)-1)%64)&1 == 1 {
+		resp.Header.Del("Link")
+	}
+	return resp, err
+}
+
 func genItems(rng *rand.Rand, kind string, n int) []string {
 	set := map[string]bool{}
 	for len(set) < n {
@@ -412,6 +429,12 @@ func runCase(run *evid.Run, idx int) {
 				o.Wrap = func(rt http.RoundTripper) http.RoundTripper {
 					return &failNth{inner: rt, n: &reqCount, at: int64(c.FaultAt), blank: c.Fault == "page-response-blank"}
 				}
+			}
+			if o.Wrap == nil && !c.OmitLink[hi] && idx%5 == 3 {
+				// Link headers on some pages only: 2nd onwards, alternate, all but the first three
+				pat := []uint64{^uint64(1), 0xAAAAAAAAAAAAAAAA, ^uint64(7), 0x5555555555555554}[(idx/5)%4]
+				o.Wrap = func(rt http.RoundTripper) http.RoundTripper { return &someLinks{inner: rt, pattern: pat} }
+				run.Count("listings_with_link_on_some_pages_only", 1)
 			}
 			firstHTTP = false
 			hi++
@@ -790,6 +813,7 @@ func main() {
 		contextDoneBetweenPages(run, i)
 	}
 	run.FloorCounter("listings_with_context_done_midway", 80)
+	run.FloorCounter("listings_with_link_on_some_pages_only", 500)
 	for i, nl := 0, run.N(3, 24); i < nl; i++ {
 		longListing(run, i)
 	}
